@@ -22,6 +22,8 @@ MUTANTS = {
  'C10-sample-physcollide-kv': ('C10', ['sample_single'], 'src/srctools/bsp.py',
     "            kvs = phys_buf.read(kv_size).rstrip(b'\\x00').decode('ascii')",
     "            kvs = phys_buf.read(kv_size).rstrip(b'\\x00').decode('ascii').replace('\"mass\"', '\"mass_\"')"),
+ 'C10-sample-plane-type': ('C10', ['sample_single'], 'src/srctools/bsp.py',
+    "                plane.dist,\n                plane.type.value,", "                plane.dist,\n                0,"),
  # ---- C11
  'C11-plane-fields-swapped': ('C11', ['planes'], 'src/srctools/bsp.py',
     "                plane.normal.x, plane.normal.y, plane.normal.z,\n                plane.dist,",
@@ -71,7 +73,13 @@ def run(name):
         env2 = dict(os.environ, VERIF_REPO=MUT)
         r = subprocess.run(['/verif/run.py', prop, '--tier', 'quick', '--procs', '6', '--only', sub], env=env2, capture_output=True, text=True)
         lines = [l for l in r.stdout.splitlines() if l.startswith('---') or l.startswith('VIOLATION') or l.startswith('HARNESS')]
-        res.append((sub, r.returncode, lines[:2]))
+        if any('/fixed-' in l for l in lines):
+            # flagged by a curated replay before the search ran: run the generated search alone as well
+            env3 = dict(os.environ, VERIF_REPO=MUT, PYTHONPATH=f'{MUT}/src:/verif/shims:/verif', PYTHONHASHSEED='0', PYTHONDONTWRITEBYTECODE='1')
+            mod = {'C10': 'c10_bsp_lossless', 'C11': 'c11_bsp_lump_inverse'}[prop]
+            r2 = subprocess.run(['/venv/bin/python', '/verif/.deps_triage.py', mod, sub, '150', '1'], env=env3, capture_output=True, text=True)
+            lines.append('search-only: ' + ' | '.join(l for l in r2.stdout.splitlines() if l.startswith('==')))
+        res.append((sub, r.returncode, lines[:3]))
     shutil.rmtree(MUT, ignore_errors=True)
     print(f'{name}: repo-bsp-tests: {tests} | ' + ' ; '.join(f'{s}: exit {rc} {ln}' for s, rc, ln in res), flush=True)
 if __name__ == '__main__':
